@@ -266,6 +266,11 @@ def run(repo: Repo, chk: Check) -> None:
         sha_in = {(e[1], e[2]) for e in evs if e[0] == 'sha256-input'}
         cmp_ = {(e[1], e[2]) for e in evs if e[0] == 'compare'}
         outs = sorted({p.outcome for p in res})
+        looked = sorted({e[1] for e in evs if e[0] == 'wordlist-lookup'})
+        chk.ob('R-FLOW', vm.qualname, bool(looked) and all(isinstance(w, str) and w.startswith('nfkd') for w in looked),
+               f'{n} words: the words looked up in the word list are cut from the NFKD-normalised sentence', vm.loc, {'looked_up': looked[:4]},
+               what=f'{n}-word mnemonics: the words searched in the BIP-39 word list ({looked[:2]}) do not come from the NFKD-normalised sentence: a valid '
+                    'mnemonic typed in composed form (French, Spanish, Japanese) is rejected')
         ok = unhex == {(ent // 4, ent // 4)} and sha_in == {(ent // 8, ent // 8)} and cmp_ == {((cs, cs), (cs, cs))} and outs == ['raise', 'return']
         chk.ob('R-GUARD', vm.qualname, ok, f'{n} words: the entropy is always {ent // 8} bytes and {cs} checksum bits are compared with {cs} bits of its SHA-256', vm.loc,
                {'hex_digits_of_entropy': sorted(unhex), 'sha256_input_bytes': sorted(sha_in), 'compared_lengths': sorted(cmp_), 'outcomes': outs},
@@ -346,10 +351,13 @@ class MnemonicHooks(Hooks):
                 if name == 'rstrip':
                     return recv
             if name == 'split' and isinstance(recv, (Sym, App)):
-                return [Sym(f'word{i}', 'str') for i in range(self.n)]
+                # the words keep the provenance of the sentence they were cut from (BIP-39: the NFKD-normalised sentence)
+                src = 'nfkd' if (isinstance(recv, Sym) and recv.name == 'normalized') else 'raw'
+                return [Sym(f'{src}word{i}', 'str') for i in range(self.n)]
             if name == 'normalize_string':
                 return Sym('normalized', 'str')
             if name == 'index':
+                it.event('wordlist-lookup', args[0].name if args and isinstance(args[0], Sym) else vrepr(args[0]) if args else None)
                 return IB(0, 2047)  # position in the 2048-word list
             if name == 'hexdigest':
                 return SL(64, 64, 'sha256 hex')
@@ -376,6 +384,8 @@ class MnemonicHooks(Hooks):
                 return Sym('sha256')
             if callee.name.endswith('Mnemonic'):
                 return Sym('mnemonic-tool')
+            if callee.name == 'unicodedata.normalize' and args and args[0] == 'NFKD':
+                return Sym('normalized', 'str')
         if isinstance(callee, App) and callee.op == 'attr' and callee.args[1] == 'hexdigest':
             return SL(64, 64, 'sha256 hex')
         return NotImplemented
